@@ -8,48 +8,37 @@ From Hts Require Import Base.Prim Model.Flat Model.Reader Model.ReaderAsync Proo
 Import ListNotations.
 Open Scope Z_scope.
 
-(** rd = 1, LRU and Random caches (a StatsRecorder around one behaves as its
-    inner cache): for every well-formed file, every valid history with
+(** rd = 1, LRU, FIFO and Random caches (a StatsRecorder around one behaves as
+    its inner cache): for every well-formed file, every valid history with
     SetCache(kind, capacity) calls at arbitrary points - any capacity; a
-    capacity below 1 yields no cache, as NewLRU/NewRandom return nil -, and
-    every choice list for Random's eviction victim: the run of the reader
+    capacity below 1 yields no cache, as NewLRU/NewFIFO/NewRandom return nil -,
+    and every choice list for Random's eviction victim: the run of the reader
     with store objects and the cache hooks (cacheSwap, cachePut, Peek chain,
     recycling of the current block) returns call by call exactly what the
     reader on block values returns, which ignores SetCache: the same bytes,
     error classes, LastChunk values and BlockLen values; and every call
-    returns.  Proved through the ownership invariant: a block id is held by at
-    most one of {current, cache}, and a cached block under key k holds the
-    data of the member at k ([cache_ok], [csr] in Proofs/CacheSim.v).
-    Partial with respect to the full statement of C03: FIFO and rd > 1 are
-    excluded (they are refuted below). *)
-Theorem cache_transparent_sync_partial :
+    returns.  Invariant ([cache_ok], [csr] in Proofs/CacheSim.v): a cached block
+    under key k holds the data of the member at k; block ids in the cache are
+    distinct; for LRU and Random the current block is never in the cache; for
+    FIFO it may be (Get keeps used blocks) but then Put answers (nil, false) and
+    the reader allocates a new block instead of recycling it. *)
+Theorem cache_transparent_sync :
   forall (F : file) (ch : list nat) (ops : list rop),
-    wf_file F = true -> F <> [] -> Forall (valid_op F) ops -> Forall cache_op_ok ops ->
+    wf_file F = true -> F <> [] -> Forall (valid_op F) ops ->
     r_run F ch (fst (r_init F)) ops = v_run F (fst (v_init F)) ops /\
     exists l, v_run F (fst (v_init F)) ops = Ok l /\ length l = length ops.
 Proof. exact cache_transparent_sync_proof. Qed.
-Print Assumptions cache_transparent_sync_partial.
+Print Assumptions cache_transparent_sync.
 
 (** The cache models honour the contract the reader relies on (Get hands the
     block over and forgets it; Put retains or returns the block and evicts at
-    most other entries; Peek knows exactly the keys held), for LRU and Random
-    in any state satisfying the invariant. *)
+    most other entries; Peek knows exactly the keys held), for LRU, FIFO and Random
+    in any state satisfying the invariant (FIFO: Get keeps a used block, Put of a
+    block that is still indexed answers (nil, false)). *)
 Theorem cache_models_honour_contract :
   forall F, get_contract F /\ put_contract F /\ peek_contract.
 Proof. exact (fun F => conj (get_holds F) (conj (put_holds F) peek_holds)). Qed.
 Print Assumptions cache_models_honour_contract.
-
-(** FIFO: the statement is false for the code as it is.  Ten members of two
-    bytes, SetCache(FIFO(5)), read blocks 0,1,2, Seek(block 0), read blocks
-    0..3, Seek(block 2), Read: the cached run returns block 3's payload, the
-    uncached run block 2's.  (FIFO.Get leaves a used block indexed; the reader
-    recycles it.)  Recorded finding C03-fifo-get-keeps-block; replayed on the code. *)
-Theorem cache_transparent_sync_fifo_refuted :
-  wf_file ten_blocks = true /\ Forall (valid_op ten_blocks) fifo_history /\
-  last_ret ten_blocks [] fifo_history = Some ([6; 7], eNil) /\
-  last_ret ten_blocks [] (strip_cache fifo_history) = Some ([4; 5], eNil).
-Proof. exact fifo_witness. Qed.
-Print Assumptions cache_transparent_sync_fifo_refuted.
 
 (** rd > 1 with a cache: the statement is false.  rd = 2, LRU(2), a 15-byte
     member plus EOF marker; under the schedule that runs the read-ahead only
@@ -81,13 +70,16 @@ Theorem reader_async_safe_partial :
 Proof. exact decompressors_conserved. Qed.
 Print Assumptions reader_async_safe_partial.
 
-(** Non-vacuity of cache_transparent_sync_partial: a history with SetCache calls, evictions and re-visits. *)
+(** Non-vacuity: histories with SetCache calls, evictions and re-visits, incl. the
+    FIFO history that used to return block 3's payload. *)
 Example c03_example :
   let F := ten_blocks in
-  let ops := [OSetCache KLRU 2; ORead 3; OSeek 0 1; ORead 5; OSetCache KRandom 1; OSeek 60 0; ORead 100; OSeek 30 2; OByte] in
-  Forall (valid_op F) ops /\ Forall cache_op_ok ops /\
-  r_run F [1; 0]%nat (fst (r_init F)) ops = v_run F (fst (v_init F)) ops.
+  let ops := [OSetCache KLRU 2; ORead 3; OSeek 0 1; ORead 5; OSetCache KRandom 1; OSeek 60 0; ORead 100; OSeek 30 2; OByte;
+              OSetCache KFIFO 2; OSeek 0 0; ORead 5; OSeek 0 0; ORead 7; OSeek 60 1; ORead 3] in
+  Forall (valid_op F) ops /\
+  r_run F [1; 0]%nat (fst (r_init F)) ops = v_run F (fst (v_init F)) ops /\
+  last_ret F [] fifo_history = Some ([4; 5], eNil).
 Proof.
   cbv zeta. split; [repeat constructor; vm_compute; try reflexivity; discriminate|].
-  split; [repeat constructor; discriminate|]. vm_compute. reflexivity.
+  split; vm_compute; reflexivity.
 Qed.
